@@ -277,7 +277,7 @@ int main(int argc, char** argv) {
       {
         int which;
         for (which = 0; which < 3; which++) {
-          uv_fs_t r, r2; uv_dir_t* dir = NULL; uv_dirent_t des[2]; int rc, crc; long res; char nm[48]; DIR* saved = NULL;
+          uv_fs_t r, r2; uv_dir_t* dir = NULL; uv_dirent_t des[2]; int rc, crc; long res; char nm[48]; DIR* saved = NULL; long lv = 0;
           static char foreign[2][8] = { "mine0", "mine1" };
           at("cancel-dirop", which);
           begin();
@@ -296,11 +296,11 @@ int main(int argc, char** argv) {
           res = (long) r.result;
           if (which == 0 && res == 0) dir = r.ptr;          /* cancel lost the race */
           if (which == 2 && res == 0) dir = NULL;
-          if (which == 2 && res < 0) { saved = dir->dir; }
+          if (which == 2 && res < 0) { saved = dir->dir; lv = uv_live; }
           uv_fs_req_cleanup(&r);
-          /* a closedir that did not run: the directory stream is still the user's to close; whether cleanup left the
-             uv_dir_t usable is what the accounting below shows (it must not half-release it) */
-          if (which == 2 && res < 0) dir = NULL;
+          /* a closedir that never ran: the uv_dir_t stays the caller's, valid and closable (retried below).  If cleanup
+             released a block here it was the uv_dir_t itself: do not touch it again, let the accounting show the rest */
+          if (which == 2 && res < 0) { if (uv_live < lv) dir = NULL; else saved = NULL; }
           if (which > 0 && (des[0].name != foreign[0] || des[1].name != foreign[1]) && res < 0) res = 12345;
           if (which == 1 && res > 0) { /* ran: names were handed out and freed by cleanup */ }
           if (dir) { uv_fs_closedir(&loop, &r2, dir, NULL); uv_fs_req_cleanup(&r2); }
